@@ -676,7 +676,6 @@ var c08Skip = skipTokens("VERIF_C08_SKIP")
 
 func c08Exec(c vmCase, x *pbt.Ctx) error {
 	res, refCalls := runRef(&c, refvm.Options{})
-	o := runImplFresh(&c)
 
 	if c.Op >= 0 {
 		x.Class("op:" + opName(byte(c.Op)))
@@ -718,8 +717,19 @@ func c08Exec(c vmCase, x *pbt.Ctx) error {
 		x.Class("SKIPPED-BY-ENV:" + why)
 		return nil
 	}
-	if err := diffRef(o, res, refCalls); err != nil {
-		return fmt.Errorf("%v\n  %s", err, describeCase(&c))
+	_, v := judgeInstance(&c, freshBuilder(&c), res, refCalls)
+	if v.err != nil {
+		return fmt.Errorf("%v\n  %s", v.err, describeCase(&c))
+	}
+	for _, f := range v.explained {
+		switch f {
+		case featWide64:
+			x.Known("vm-64bit-operand-truncation")
+		case featChildExp:
+			x.Known("checkpredicate-child-drops-expansion-flag")
+		default:
+			x.Class("C06-matter:" + f)
+		}
 	}
 	return nil
 }
